@@ -182,6 +182,10 @@ class Unit:
                     for c in n.get('inner', []): walk(c, q, parent)
                     return
                 q = '::'.join(ctx + [name]) if name else '::'.join(ctx + ['<anon>'])
+                pid0 = n.get('parentDeclContextId')
+                if k in REC_KINDS and name and pid0 in self.qname and pid0 in self.by_id and self.by_id[pid0].get('kind') in REC_KINDS and parent is None:
+                    q = self.qname[pid0] + '::' + name      # out-of-line definition of a nested class (class Outer::Inner { ... })
+                    ctx = self.qname[pid0].split('::')
                 self.qname[nid] = q
                 if k in REC_KINDS:
                     if n.get('completeDefinition') or any(c.get('kind') == 'FieldDecl' for c in n.get('inner', [])):
@@ -303,6 +307,8 @@ class Unit:
         for kw in ('struct ', 'class ', 'enum ', 'union '):
             if name.startswith(kw): name = name[len(kw):]
         if name in SCALARS: return SCALARS[name]
+        if name.endswith('::size_type'): return 'size_t'
+        if name.endswith('::difference_type'): return 'ptrdiff_t'
         if name in self.opaque_records: return self.opaque_records[name]
         for oq, oc in self.opaque_records.items():
             if oq.endswith('::' + name) or name.endswith('::' + oq): return oc
@@ -412,7 +418,8 @@ class Unit:
             else:
                 val += 1
             lines.append('  %s = %d' % (self.mangle(self.qname[c['id']]), val))
-        self.emitted_types[cn] = 'enum %s {\n%s\n};' % (cn, ',\n'.join(lines))
+        vals = [int(l.rsplit('=', 1)[1]) for l in lines] or [0]
+        self.emitted_types[cn] = 'enum %s {\n%s\n};\nenum { %s__MAX = %d, %s__MIN = %d };' % (cn, ',\n'.join(lines), cn, max(vals), cn, min(vals))
         self.type_order.append(cn)
 
     def record_fields(self, n):
@@ -480,10 +487,11 @@ class Unit:
         is_const = qt.startswith('const ') or n.get('constexpr')
         m = re.match(r'^(.*?)\[(\d*)\]$', qt.strip())
         if n.get('constexpr') and not txt.startswith('const '): txt = 'const ' + txt
-        if ks:
+        ctg = txt.rsplit(' ', 1)[0].replace('const ', '')
+        if ks and self.models and self.models.is_model_type(ctg):
+            self.emitted_globals[cn] = 'static %s;   /* global of a modelled type: contents abstract */' % txt.replace('const ', '')
+        elif ks:
             init = self.static_init(ks[0], qt)
-            if m and m.group(2) == '':
-                pass
             self.emitted_globals[cn] = 'static %s = %s;' % (txt, init)
         else:
             self.emitted_globals[cn] = 'static %s;' % txt
@@ -750,6 +758,8 @@ class Unit:
         e = inner
         try: dt = self.ctype_node(sub)[0]
         except Unsupported: dt = ''
+        if dt and self.models and self.models.is_model_type(dt.replace('*', '').strip()):
+            return inner        # model types have no base-class layout: the conversion is the identity
         if any(dt.replace('*', '').strip() == oc for oc in self.opaque_records.values()):
             # opaque records have no layout here: a derived-to-base conversion is a plain pointer cast
             bt = self.resolve_named(path[-1]['name']) if path else None
@@ -910,9 +920,11 @@ class Unit:
             except Unsupported: ct = None
             if ct and not ct.startswith('struct '):
                 return '(&(%s){%s})' % (ct.replace('const ', ''), self.expr(s))
-            if ct and s['kind'] in ('CXXConstructExpr', 'CXXTemporaryObjectExpr'):
+            is_model = bool(ct and self.models and self.models.is_model_type(ct))
+            if ct and s['kind'] in ('CXXConstructExpr', 'CXXTemporaryObjectExpr') and not is_model:
                 return self.temp_object(s)
-            if ct and s['kind'] in ('CallExpr', 'CXXMemberCallExpr', 'CXXOperatorCallExpr'):
+            if ct:
+                # any other record-valued prvalue (call result, model-type conversion): materialise it in a named temporary
                 t = self.new_tmp()
                 self.pre.append('%s %s = %s;' % (ct, t, self.expr(s)))
                 self.note_tmp_object(t, ct)
@@ -1305,8 +1317,7 @@ class Unit:
             self.w(p + 'default:')
             self.stmt(self.kids(n)[0], ind + 1)
         elif k == 'CXXTryStmt':
-            if not self.models: raise Unsupported('try/catch')
-            self.models.try_stmt(self, n, ind)
+            self.try_stmt(n, ind)
         elif k == 'GotoStmt' or k == 'LabelStmt':
             raise Unsupported(k)
         else:
@@ -1319,6 +1330,38 @@ class Unit:
                 if self.stmt_may_throw:
                     self.stmt_may_throw = False
                     self.w(p + 'if (__exc != 0)'); self.w(p + '{'); self.emit_exc_exit(p + '  '); self.w(p + '}')
+
+    EXC_CODES = {'invalid_argument': [1], 'out_of_range': [3], 'logic_error': [1, 3, 4], 'length_error': [5], 'runtime_error': [6], 'bad_alloc': [7]}
+    def try_stmt(self, n, ind):
+        """try/catch on the ghost exception code: a throwing statement jumps to the handler chain; a handler whose type does not match
+        lets the code propagate (to the enclosing try or out of the function)"""
+        p = '  ' * ind
+        ks = self.kids(n); body = ks[0]; handlers = ks[1:]
+        self.try_counter = getattr(self, 'try_counter', 0) + 1; L = self.try_counter
+        self.uses_exc = True
+        self.w(p + '{')
+        self.try_depth += 1; self.try_labels.append(L)
+        self.scopes.append({'vars': [], 'kind': 'try'})
+        self.stmt(body, ind + 1)
+        self.scopes.pop(); self.try_labels.pop(); self.try_depth -= 1
+        self.w(p + '  goto __endtry_%d;' % L)
+        self.w(p + '  __catch_%d: ;' % L)
+        for h in handlers:
+            hk = self.kids(h)
+            decl = [c for c in hk if c['kind'] == 'VarDecl']; hb = [c for c in hk if c['kind'] == 'CompoundStmt'][0]
+            if decl:
+                tn = decl[0]['type']['qualType'].replace('const ', '').replace('&', '').replace('std::', '').strip()
+                codes = self.EXC_CODES.get(tn)
+                if tn == 'exception': cond = '__exc != 0'
+                elif codes: cond = ' || '.join('__exc == %d' % c for c in codes)
+                else: raise Unsupported('catch of type ' + tn)
+            else: cond = '__exc != 0'
+            self.w(p + '  if (%s)' % cond); self.w(p + '  {'); self.w(p + '    __exc = 0;')
+            self.stmt(hb, ind + 2)
+            self.w(p + '    goto __endtry_%d;' % L); self.w(p + '  }')
+        self.emit_exc_exit(p + '  ')
+        self.w(p + '  __endtry_%d: ;' % L)
+        self.w(p + '}')
 
     def emit_exc_exit(self, p):
         """leave the function (or jump to the handler) with __exc set"""
@@ -1622,7 +1665,6 @@ class Unit:
     def assemble(self):
         parts = []
         if self.models: parts.append(self.models.prelude(self))
-        parts.append('static int __exc;')
         early = self.spec.get(('prelude_early',))
         if early: parts.append(early)
         # enums first, then records in dependency (emission) order
